@@ -85,6 +85,11 @@ def pre_cases(draw, tier):
     c = draw(corpora.corpus_and_prune(max_docs=8 if big else 5, max_len=16 if big else 10, p_each=0.3))
     c["mask"] = draw(st.sampled_from([None, None, "__M__"]))
     c["shuffle_seed"] = draw(st.integers(0, 10 ** 6))
+    # history: the same parameter objects are first used to learn from another corpus over the same alphabet
+    c["prior_docs"] = None
+    if draw(st.booleans()):
+        alpha = sorted({t for d in c["docs"] for t in d}, key=repr)
+        c["prior_docs"] = draw(st.lists(st.lists(st.sampled_from(alpha), max_size=6), min_size=1, max_size=4))
     c["given_dict"] = draw(st.sampled_from([False] * 7 + [True]))
     if c["given_dict"]:
         c["prune"] = {}
@@ -115,7 +120,11 @@ def check_pre(case):
         r.nontrivial = len(toks) > 1
         r.label("given-dict")
         return r
-    s, out = call(L["pre"].preprocess_token_sequences, docs, None, masking=mask, **pre_kwargs(prune))
+    kw = pre_kwargs(prune)
+    if case.get("prior_docs") and any(case["prior_docs"]):
+        r.label("relearn")
+        call(L["pre"].preprocess_token_sequences, case["prior_docs"], None, masking=mask, **kw)
+    s, out = call(L["pre"].preprocess_token_sequences, docs, None, masking=mask, **kw)
     if s == "exc":
         r.fail(exc_kind(out), site, exc_detail(out))
         return r
@@ -141,6 +150,10 @@ def ngram_cases(draw, tier):
     n = draw(st.sampled_from([1, 1, 2, 2, 3]))
     c = draw(corpora.corpus(max_docs=5, max_len=10 if n == 1 else 14, max_alpha=4 if n == 1 else 3))
     c["ngram_size"] = n
+    c["prior_docs"] = None
+    if draw(st.booleans()):
+        alpha = sorted({t for d in c["docs"] for t in d}, key=repr)
+        c["prior_docs"] = draw(st.lists(st.lists(st.sampled_from(alpha), max_size=8), min_size=1, max_size=4))
     if n == 1:
         c["prune"] = draw(corpora.prune_params(c["docs"], c["token_type"]))
     else:
@@ -167,6 +180,9 @@ def check_ngram(case):
         r.label("opt:" + k)
     r.label("n=%d" % n)
     est = L["Ngram"](ngram_size=n, **est_kwargs(prune))
+    if case.get("prior_docs") and any(case["prior_docs"]):
+        r.label("refit")
+        call(est.fit, case["prior_docs"])        # the same estimator (and parameter objects) learns from another corpus first
     s, out = call(est.fit, docs)
     if n > 1:
         # precondition (corrections log): a corpus in which no n-gram exists after token pruning has no n-gram
